@@ -11,6 +11,7 @@ import (
 	"reflect"
 	"strings"
 	"sync"
+	"unsafe"
 
 	"github.com/tmpim/casket/casketfile"
 	"github.com/tmpim/casket/caskethttp/proxy"
@@ -34,6 +35,14 @@ type c05In struct {
 	Chunked bool      `json:"chunked,omitempty"`
 	BodyLen int       `json:"bodylen,omitempty"`
 	RT      *c05RT    `json:"rt,omitempty"` // kind retryt: timed retry loop (c05_retry.go)
+	Robin   uint32    `json:"robin,omitempty"` // kind rrseq: value the RoundRobin counter is set to
+	M       int       `json:"m,omitempty"`     // kind rrseq: number of consecutive Selects
+}
+
+// setRobin sets the unexported uint32 counter of a RoundRobin policy (4 * 10^9 Selects are not replayed)
+func setRobin(rr *proxy.RoundRobin, v uint32) {
+	f := reflect.ValueOf(rr).Elem().FieldByName("robin")
+	*(*uint32)(unsafe.Pointer(f.UnsafeAddr())) = v
 }
 
 func fnv32a(s string) uint32 {
@@ -97,6 +106,42 @@ func c05Run(in0 interface{}) Result {
 	switch in.Kind {
 	case "retryt":
 		return c05RunTimed(in)
+	case "rrseq":
+		rr := &proxy.RoundRobin{}
+		setRobin(rr, in.Robin)
+		var pool proxy.HostPool
+		var av []string
+		for i, h := range in.Pool {
+			uh := &proxy.UpstreamHost{Name: fmt.Sprintf("h%d", i)}
+			if h.U {
+				uh.Unhealthy = 1
+			}
+			pool = append(pool, uh)
+			av = append(av, cBool(!h.U))
+		}
+		req := httptest.NewRequest("GET", "http://example.test/", nil)
+		var obs []int
+		var terms []string
+		for k := 0; k < in.M; k++ {
+			got := rr.Select(pool, req)
+			idx := -1
+			for i, h := range pool {
+				if h == got {
+					idx = i
+				}
+			}
+			obs = append(obs, idx)
+			terms = append(terms, cOptNat(idx))
+		}
+		n := uint64(len(in.Pool))
+		wrap := uint64(in.Robin)+uint64(in.M)*n >= 1<<32
+		sig := "rrseq:nowrap"
+		if wrap && n > 0 && (1<<32)%n != 0 {
+			sig = "rrseq:wrap:size-not-dividing-2^32"
+		} else if wrap {
+			sig = "rrseq:wrap:size-dividing-2^32"
+		}
+		return Result{Term: cApp("CRRSeq", cN(uint64(in.Robin)), cList(av), cList(terms)), Obs: obs, Sig: sig, Nontrivial: wrap, Class: sig}
 	case "policy":
 		pol, pterm, req := c05Pol(in)
 		var pool proxy.HostPool
@@ -366,6 +411,20 @@ func c05Gen(r *Rand, tier string) []interface{} {
 		out = append(out, in)
 	}
 	out = append(out, c05GenTimed(r, tier)...)
+	// round robin right below the uint32 wrap (counter set directly), pools of 1..6 hosts
+	for n := 1; n <= 6; n++ {
+		masks := []int{1<<n - 1, 1 << (n - 1), 1, (1<<n - 1) &^ 1}
+		for _, mask := range masks {
+			pool := make([]c05Host, n)
+			for i := range pool {
+				pool[i].U = mask>>i&1 == 0
+			}
+			for d := 0; d <= 2*n; d += 1 + n/3 {
+				out = append(out, &c05In{Kind: "rrseq", Pool: pool, Robin: uint32(1<<32 - 1 - d), M: 2 * n})
+			}
+			out = append(out, &c05In{Kind: "rrseq", Pool: pool, Robin: uint32(r.Intn(1 << 30)), M: 3 * n})
+		}
+	}
 	return out
 }
 
